@@ -24,7 +24,7 @@ RULE = ('generated multi-namespace specs (cross-namespace fields, parents, enume
 ASSUMPTIONS = ['Only whitelists naming existing namespaces, routes and types are generated.']
 DOC_REF = re.compile(r':(?P<tag>[A-z]+):`(?P<val>.*?)`')
 
-C20_CFG = dict(schema=None, omitted=False, annotations=False, max_ns=4, max_types=6, max_routes=4, examples=False,
+C20_CFG = dict(alias_nesting_bias=True, schema=None, omitted=False, annotations=False, max_ns=4, max_types=6, max_routes=4, examples=False,
                patches=True, route_io_any=True, route_container_bias=True)
 
 
